@@ -32,6 +32,10 @@ def run(ctx):
     ctx.trusted = ["rustc nightly MIR construction", "std::io::Error::new keeps the given kind"]
     category(ctx, lexpr, serde)
     eof_conflate(ctx, lexpr)
+    # the line of a location counts line feeds and nothing else, for stream and slice input alike (shared with C11)
+    from . import c11
+    c11.column_unit(ctx, lexpr)
+    charname_eof(ctx, lexpr)
 
 
 def _variant_result(S, fn, hookmap):
@@ -324,3 +328,80 @@ def eof_conflate(ctx, lexpr):
                             "%s: when the input ends at the read on line %s the only error raised (line %s) is %s, a "
                             "syntax code: a truncated but otherwise well-formed input is reported as malformed, never "
                             "as EOF" % (fp, ent["line"], sorted(x for x in ent["elines"] if x), cd), fn.loc(ent["line"]))
+
+
+def charname_eof(ctx, lexpr):
+    """`#\\name` character names: a proper prefix of an accepted name followed by the end of input is an incomplete
+    name (EOF category), not a malformed one.  The accepted names are discovered from the code itself: the R6RS
+    character reader is evaluated with the reader delivering 2..12 ranged bytes and a delimiter, the name match
+    narrows each byte to one value on the accepting paths.  Each proper prefix (two bytes or more: a single byte is
+    a character by itself) is then fed concretely, followed by the end of input."""
+    from .. import lex, sim
+    from ..sim import Adt, Ref, Rng, Tup
+    r = ctx.rule("R-CHARNAME-EOF", "every proper prefix of every character name the reader accepts, cut off by the end of "
+                                   "input, is reported with an Eof code (the name table and the incomplete-name table agree)")
+    fn = lexpr.fn("parse::read::parse_r6rs_char")
+    if fn is None:
+        r.anchor_missing("parse::read::parse_r6rs_char")
+        return
+    inl = lex.helper_inline(lexpr, {"parse::is_delimiter", "parse::read::next_or_eof_char", "parse::read::error"})
+
+    def run(seq, assume_name_bytes):
+        def extra(S, f, bb, t, args, path, names):
+            if assume_name_bytes and "parse::is_delimiter" in names and args and isinstance(S._deref(args[0], path), Rng):
+                return ("value", 0)       # the ranged bytes stand for name characters
+            return None
+        S = sim.Sim([lexpr], hooks={"call": lex.seq_hook(seq, extra)}, inline=inl, max_paths=20000, max_depth=6, max_visits=16)
+        S.structural_vec = True
+        cell = [Adt("sim::Vec", 0, [Tup([])])]
+        return S, cell, S.run(fn, args={2: Ref(cell, 0, ())})
+
+    names = set()
+    try:
+        for L in range(2, 13):
+            seq = [Rng(0, 0x7F) for _ in range(L)] + [0x20, None]
+            S, cell, paths = run(seq, True)
+            for p in paths:
+                if not (p.end == "return" and isinstance(p.ret, Adt) and p.ret.adt.endswith("Result") and p.ret.variant == 0):
+                    continue
+                mine, _ = S._caller_env(cell, p, 0)
+                v = mine[0]
+                if not (isinstance(v, Adt) and v.adt == "sim::Vec") or len(v.fields[0].fields) != L:
+                    continue
+                bs = []
+                for x in v.fields[0].fields:
+                    for memo in p.memos:
+                        x = memo.get(id(x), x)
+                    bs.append(x if isinstance(x, int) else (x.lo if isinstance(x, Rng) and x.lo == x.hi else None))
+                if None not in bs:
+                    names.add(bytes(bs))
+    except sim.Limit:
+        r.violation(fn.path, "inexact", "path limit while discovering the accepted character names", fn.loc())
+        return
+    r.floor("character-names", len(names))
+    r.note("character names accepted by the reader: %s" % ", ".join(sorted(n.decode("latin1") for n in names)))
+    n = 0
+    for name in sorted(names):
+        for k in range(2, len(name)):
+            prefix = name[:k]
+            if prefix in names:
+                continue
+            n += 1
+            S, cell, paths = run(list(prefix) + [None, None], False)
+            codes = set()
+            for p in paths:
+                if p.end == "return":
+                    cs = lex.error_codes(p, lexpr)
+                    codes.add(cs[-1] if cs else ("Ok" if lex.ret_shape(p) == "Ok" else "?"))
+                elif p.end == "panic":
+                    codes.add("panic")
+            desc = "`#\\%s` at the end of input (prefix of `%s`)" % (prefix.decode("latin1"), name.decode("latin1"))
+            if codes and all(c.startswith("Eof") for c in codes):
+                r.ok("%s -> %s" % (desc, sorted(codes)[0]), fn)
+            elif "?" in codes or not codes:
+                r.violation(fn.path, "inexact:%s" % prefix.decode("latin1"), "%s could not be evaluated (%s)" % (desc, sorted(codes)), fn.loc())
+            else:
+                r.violation(fn.path, "charname-eof:%s" % prefix.decode("latin1"),
+                            "%s is reported as %s: a streaming caller takes the truncated input for malformed"
+                            % (desc, sorted(codes)), fn.loc())
+    r.floor("prefix-cases", n)
